@@ -47,7 +47,11 @@ func ParseValue(src []byte) (value ast.Value, errs []*Error) {
 			}
 		}
 	}()
-	return p.parseValue(false), p.errors
+	ret := p.parseValue(false)
+	if !p.eof {
+		panic(p.errorf("expected end of input"))
+	}
+	return ret, p.errors
 }
 
 type parserToken struct {
